@@ -28,6 +28,7 @@ type Env struct {
 	localsOK bool // local variables (latest tracked value) may be named (helper clauses labelled local-...)
 	tparams  map[string]types.Type // type parameter name -> type argument (contracts of generic functions)
 	assuming bool                  // the clause is being assumed (not checked): private(x) registers
+	bound    map[string]bool       // names bound by an enclosing quantifier
 }
 
 var (
@@ -186,7 +187,7 @@ func (env *Env) ident(name string) *Val {
 	case "nil":
 		return &Val{T: "0", Ty: types.Typ[types.UntypedNil]}
 	}
-	if v, ok := env.names[name]; ok && env.callArg {
+	if v, ok := env.names[name]; ok && (env.callArg || env.bound[name]) {
 		return env.materialize(v)
 	}
 	if env.useVars && env.fr != nil {
@@ -529,6 +530,12 @@ func (env *Env) call(n *ast.CallExpr) *Val {
 				bs = append(bs, fmt.Sprintf("(%s %s)", bn, srt))
 				ne = ne.with(v, &Val{T: bn, Ty: ty})
 				ne.closed = true
+				// a bound variable shadows a local variable of the same name
+				nb := map[string]bool{v: true}
+				for k := range ne.bound {
+					nb[k] = true
+				}
+				ne.bound = nb
 			}
 			body := ne.eval(n.Args[len(n.Args)-1])
 			bt := body.T
@@ -1138,7 +1145,14 @@ func (env *Env) goCallVals(fn *ssa.Function, args []*Val) *Val {
 	}
 	if c := e.contractFor(fn); c != nil && c.Pure && !c.Inline {
 		// uninterpreted pure function described by its contract
-		rs := e.pureContractApp(env.st, fn, c, args)
+		pst := env.st
+		if env.closed {
+			// under a binder the application mentions bound variables: its
+			// ensures cannot be assumed on the path (they would escape the
+			// quantifier); only the uninterpreted application is used
+			pst = env.st.clone()
+		}
+		rs := e.pureContractApp(pst, fn, c, args)
 		if len(rs) == 1 {
 			return rs[0]
 		}
